@@ -111,9 +111,14 @@ func modeJSON(c *Ctx) {
 					continue
 				}
 			}
+			before := dumpValueNil(v)
 			bs, err := marshalValue(v)
 			c.Stat("values", 1)
 			in := fmt.Sprintf("%s: %s", ts.Name, trunc(dumpValue(v), 400))
+			if after := dumpValueNil(v); after != before {
+				// encoding reads its input: a value shared between requests must come out untouched
+				c.Viol("input-mutated", "MarshalJSON changed the value it was encoding ["+ts.Name+"]", trunc(before, 400), trunc(before, 400), trunc(after, 400))
+			}
 			if err != nil {
 				if kind == "oneOf" && strings.Contains(err.Error(), "all field are empty") {
 					continue // outside the domain: no arm set (only possible when a wrapper stayed unset)
@@ -468,4 +473,13 @@ func escapedStyle(class string, escaped bool, err error) (string, string) {
 		note += " (time.Time does not unescape JSON strings)"
 	}
 	return class + ":escaped-strings", note
+}
+
+// dumpValueNil renders a value so that nil and empty slices / maps differ
+// (%#v of the interface value: "[]string(nil)" vs "[]string{}").
+func dumpValueNil(v reflect.Value) string {
+	if !v.IsValid() || !v.CanInterface() {
+		return ""
+	}
+	return fmt.Sprintf("%#v", v.Interface())
 }
